@@ -41,8 +41,10 @@ def apply_unified_diff(patch):
         except OSError:
             return None
         lines = text.split('\n')
+        starts = [int(x) for x in re.findall(r'^@@ -(\d+)(?:,\d+)? \+\d+(?:,\d+)? @@.*$', chunk, flags=re.M)]
         hunks = re.split(r'^@@ .*?@@.*$', chunk, flags=re.M)[1:]
-        for h in hunks:
+        shift = 0
+        for hi, h in enumerate(hunks):
             old, new = [], []
             for ln in h.split('\n')[1:]:
                 if ln.startswith('\\'):
@@ -57,14 +59,15 @@ def apply_unified_diff(patch):
             while old and new and old[-1] == '' and new[-1] == '':
                 old.pop()
                 new.pop()
-            pos = None
-            for i in range(0, len(lines) - len(old) + 1):
-                if lines[i:i + len(old)] == old:
-                    pos = i
-                    break
-            if pos is None:
+            # all places where the old text matches; take the one nearest to the line number of the hunk header (the same
+            # context can occur in several functions)
+            cands = [i for i in range(0, len(lines) - len(old) + 1) if lines[i:i + len(old)] == old]
+            if not cands:
                 return None
+            want = (starts[hi] - 1 + shift) if hi < len(starts) else cands[0]
+            pos = min(cands, key=lambda i: abs(i - want))
             lines[pos:pos + len(old)] = new
+            shift += len(new) - len(old)
         out[rel] = '\n'.join(lines)
     return out or None
 
